@@ -129,6 +129,13 @@ class FakeSock:
 class FakeListener:
     def __init__(self):
         self.queue = []
+        self.timeout = None
+
+    def settimeout(self, t):
+        self.timeout = t
+
+    def gettimeout(self):
+        return self.timeout
 
     def accept(self):
         s = self.queue.pop(0)
@@ -215,6 +222,14 @@ class Rig:
         self.ann_gates = {}        # conn index -> gate key: that connection's handler waits inside Daemon.annotations() once
 
         class RigDaemon(server.Daemon):
+            def _handshake(self, conn, denied_reason=None):
+                rig.tls.hs_idx = getattr(getattr(conn, "sock", None), "index", None)
+                rig.tls.hs_validated = False
+                try:
+                    return super()._handshake(conn, denied_reason)
+                finally:
+                    rig.tls.hs_idx = None
+
             def validateHandshake(self, conn, data):
                 rig.tls.conn_idx = conn.sock.index
                 if data == "raise":
@@ -222,8 +237,10 @@ class Rig:
                 if data == "secraise":
                     raise errors.SecurityError("validator security")
                 if data == "unser":
+                    rig.tls.hs_validated = True
                     return threading.Lock()
                 rig.conns[conn.sock.index] = conn
+                rig.tls.hs_validated = True
                 return "hello"
 
             def clientDisconnect(self, conn):
@@ -266,6 +283,30 @@ class Rig:
             return rig._orig_oneway_run(thread_self)
         server._OnewayCallThread.run = delayed_run
         self.daemon = RigDaemon(unixsocket=os.path.join(self.tmp, "sock"))
+        # the daemon's own registered object ("Pyro.Daemon"): its methods are methods of a registered object like any other - none
+        # may run for a connection whose handshake the validator has not accepted (yet)
+        from Pyro5 import core as _core
+        self.premature = []        # (conn index, method) run during a handshake before the validator accepted
+        dobj = self.daemon.objectsById[_core.DAEMON_NAME]
+        for mname in ("get_metadata", "registered", "info", "ping", "get_next_stream_item", "close_stream"):
+            orig = getattr(dobj, mname, None)
+            if orig is None:
+                continue
+
+            def wrapped(*a, _orig=orig, _m=mname, **kw):
+                if getattr(rig.tls, "hs_idx", None) is not None and not getattr(rig.tls, "hs_validated", False):
+                    rig.premature.append((rig.tls.hs_idx, _m))
+                return _orig(*a, **kw)
+            for tag in ("_pyroExposed", "_pyroOneway", "_pyroCallback", "__name__", "__doc__"):
+                if hasattr(orig, tag):
+                    try:
+                        setattr(wrapped, tag, getattr(orig, tag))
+                    except (AttributeError, TypeError):
+                        pass
+            try:
+                setattr(dobj, mname, wrapped)
+            except AttributeError:
+                pass
         self.errors = errors
         self.ctx = callcontext.current_context
 
@@ -526,6 +567,7 @@ class Rig:
         return {
             "replies": [(r[0], r[1], r[2], r[3]) for r in self.replies(idx)],
             "execs": [t for i, t in self.execs if i == idx],
+            "premature": [m for i, m in self.premature if i == idx],
             "hook": self.hooks.get(idx, 0),
             "sockclosed": (s.closed if s else 0),
             "registered": registered,
